@@ -63,7 +63,8 @@ CONSTANTS
   AtomicGossip,  \* TRUE: the whole proposal/accept/execute gossip is one step
   AtomicExec,    \* TRUE: the whole kyber run is one step
   MaxDrop,       \* number of bundles the network may lose on one directed link (0 or 1)
-  DropKinds      \* kinds of bundles ("D", "R", "J") that may be lost
+  DropKinds,     \* kinds of bundles ("D", "R", "J") that may be lost
+  Offline        \* leaving nodes that are switched off: nothing reaches them, they relay nothing
 
 VARIABLES
   rank,     \* [Nodes -> Nat]  order of the nodes' public keys (bytes)
@@ -292,7 +293,7 @@ Init ==
 ListChoices(S) == IF PermuteLists THEN SeqsOf(S) ELSE {ById(S)}
 
 SendGossip(net, pid, sender, t, sn) ==
-  net \cup {<<pid, m>> : m \in {x \in Recipients(t) \ {sender} : pid \notin sn[x]}}
+  net \cup {<<pid, m>> : m \in {x \in (Recipients(t) \ Offline) \ {sender} : pid \notin sn[x]}}
 
 (* Command(Initial / Resharing): StartNetwork / StartProposal               *)
 Propose(js, rs, ls) ==
@@ -305,9 +306,12 @@ Propose(js, rs, ls) ==
      /\ stored' = [stored EXCEPT ![Leader] = t]
      /\ seen' = sn
      \* the leader's own calls are tracked in plock: Command returns when all have returned
-     /\ plock' = Recipients(t) \ {Leader}
+     \* (only the joining and remaining nodes: the proposal is sent to the leavers as well, but
+     \* Command does not wait for them - "if it fails, no big deal")
+     /\ plock' = Participants(t) \ {Leader}
+     /\ gnet' = gnet \cup {<<PktP, m>> : m \in Range(ls) \ Offline}
   /\ op' = [name |-> "Propose", join |-> js, remain |-> rs, leave |-> ls]
-  /\ UNCHANGED <<rank, dropped, gnet, phase, hashes, bnet, qual, clock, fin>>
+  /\ UNCHANGED <<rank, dropped, phase, hashes, bnet, qual, clock, fin>>
 
 (* Command(Join): joiners do not gossip                                      *)
 Join(n) ==
@@ -380,8 +384,8 @@ GossipAll(js, rs, ls) ==
   /\ LET t == MkTerms(js, rs, ls) IN
      /\ prop' = t
      /\ st' = [n \in Nodes |-> IF n \in Participants(t) THEN "Executing"
-                               ELSE IF n \in Range(t.leaving) THEN "Left" ELSE st[n]]
-     /\ stored' = [n \in Nodes |-> IF n \in Recipients(t) THEN t ELSE stored[n]]
+                               ELSE IF n \in Range(t.leaving) \ Offline THEN "Left" ELSE st[n]]
+     /\ stored' = [n \in Nodes |-> IF n \in Recipients(t) \ Offline THEN t ELSE stored[n]]
      /\ phase' = [n \in Nodes |-> IF n \in Participants(t) THEN "setup" ELSE "idle"]
   /\ op' = [name |-> "GossipAll", join |-> js, remain |-> rs, leave |-> ls]
   /\ UNCHANGED <<rank, dropped, seen, gnet, plock, hashes, bnet, qual, clock, fin>>
